@@ -210,6 +210,14 @@ func (g *gen) stmt(nest int, inIf bool, inLoop bool) *stmt {
 	if nest >= 3 && c >= 12 {
 		c = g.r.Intn(12)
 	}
+	if inLoop && g.r.Chance(1, 10) {
+		if g.r.Bool() {
+			g.p.tags["break"] = true
+			return &stmt{k: "brk"}
+		}
+		g.p.tags["continue"] = true
+		return &stmt{k: "cont"}
+	}
 	switch {
 	case c < 5:
 		return &stmt{k: "asg", x: g.pickVar(), e: g.expr(2)}
@@ -288,11 +296,35 @@ func (g *gen) stmt(nest int, inIf bool, inLoop bool) *stmt {
 			st.init = g.simple()
 			g.p.tags["for-init"] = true
 		}
-		// the real compiler releases the body's variables when it visits the post clause; the model has no
-		// statement form for that, so a post clause is only generated for bodies without declarations
-		if !hasTopDecl(body) && g.r.Chance(1, 3) {
+		// (the real compiler releases the body's variables when it visits the post clause: `loopP` in the model)
+		if g.r.Chance(1, 3) {
 			st.post = g.simple()
 			g.p.tags["for-post"] = true
+			// a `continue` that skips part of the body must still reach the post clause
+			if g.r.Bool() && len(st.t) > 0 {
+				k := g.r.Intn(len(st.t) + 1)
+				for k < len(st.t) && st.t[k].k == "decl" {
+					k++ // after the body's declarations
+				}
+				guard := &stmt{k: "if", ca: &expr{k: "var", n: v}, cb: g.lit(), t: []*stmt{{k: "cont"}}}
+				if g.r.Bool() {
+					guard.cb = &expr{k: "lit", n: g.r.Intn(4)}
+				}
+				shadowedHere := false
+				for _, b := range st.t[:k] {
+					if b.k == "decl" && g.p.names[b.x] == g.p.names[v] {
+						shadowedHere = true
+					}
+				}
+				if !shadowedHere {
+					nt := append([]*stmt{}, st.t[:k]...)
+					nt = append(nt, guard)
+					nt = append(nt, st.t[k:]...)
+					st.t = nt
+					g.p.tags["continue"] = true
+					g.p.tags["continue-with-post"] = true
+				}
+			}
 		}
 		return st
 	default:
@@ -368,16 +400,17 @@ func (s *stmt) sx() string {
 		return fmt.Sprintf("(%s %d %s)", s.k, s.x, s.e.sx())
 	case "inc", "dec", "decl":
 		return fmt.Sprintf("(%s %d)", s.k, s.x)
+	case "brk", "cont":
+		return s.k
 	case "if":
 		return fmt.Sprintf("(if (eq %s %s) %s)", s.ca.sx(), s.cb.sx(), blockSx(s.t))
 	case "ife":
 		return fmt.Sprintf("(ife (eq %s %s) %s %s)", s.ca.sx(), s.cb.sx(), blockSx(s.t), blockSx(s.el))
 	case "forc":
-		body := s.t
 		if s.post != nil {
-			body = append(append([]*stmt{}, s.t...), s.post)
+			return fmt.Sprintf("(forp (eq %s %s) %s %s)", s.ca.sx(), s.cb.sx(), blockSx(s.t), s.post.sx())
 		}
-		return fmt.Sprintf("(forc (eq %s %s) %s)", s.ca.sx(), s.cb.sx(), blockSx(body))
+		return fmt.Sprintf("(forc (eq %s %s) %s)", s.ca.sx(), s.cb.sx(), blockSx(s.t))
 	case "for":
 		return fmt.Sprintf("(for %s)", blockSx(s.t))
 	}
@@ -509,6 +542,10 @@ func (p *prog) goBlock(sb *strings.Builder, b []*stmt, ind string) {
 		switch s.k {
 		case "asg":
 			fmt.Fprintf(sb, "%s%s = %s\n", ind, p.varName(s.x), p.goFlat(s.e))
+		case "brk":
+			fmt.Fprintf(sb, "%sbreak\n", ind)
+		case "cont":
+			fmt.Fprintf(sb, "%scontinue\n", ind)
 		case "decl":
 			fmt.Fprintf(sb, "%svar %s uint%d\n", ind, p.varName(s.x), p.w)
 		case "inc":
